@@ -1749,7 +1749,9 @@ theorem handleConnack_extra (e : Engine) (c : Connack) (hinv : Inv e) (h : Extra
     · exact h
     · split
       · exact h
-      · let e1 : Engine := { e with state := .connected, hasConnected := true, settings := some (e.buildSettings c), connackDeadline := none, outRes := e.outRes.reset (c.topicAliasMaximum.getD 0), inRes := e.inRes.reset, pingDeadline := none, nextPing := (if (e.buildSettings c).serverKeepAlive > 0 then some (e.now + (e.buildSettings c).serverKeepAlive * 1000) else none) }
+      · split
+        · exact h
+        let e1 : Engine := { e with state := .connected, hasConnected := true, settings := some (e.buildSettings c), connackDeadline := none, outRes := e.outRes.reset (c.topicAliasMaximum.getD 0), inRes := e.inRes.reset, pingDeadline := none, nextPing := (if (e.buildSettings c).serverKeepAlive > 0 then some (e.now + (e.buildSettings c).serverKeepAlive * 1000) else none) }
         let e2 := e1.initSlowStart
         have iv := initSlowStart_view e1
         have x1 : Extra false [] e1.view := by
